@@ -43,6 +43,11 @@ def check(index, ctx):
                             (f"`{high[0]['text'][:80]}` scales like the input to the power {high[0]['deg']}: for finite inputs of magnitude ~1e20 (float32) it overflows before the normalisation, "
                              "so the projection is computed from inf/nan") if high else "", high[0]["loc"] if high else cls.loc())
                 for e in ev:
+                    if e["kind"] == "store_cast" and e.get("buffer_dtype") == "Cfg" and e.get("value_dtype") != "Cfg":
+                        ctx.violated("R2", f"{name}: {e['function'].split('.')[-1]}: {e['text'][:70]}",
+                                     f"the QP solution (dtype tag {e.get('value_dtype')}) is stored into a buffer allocated with the dtype of the preference vector: an integer or half-precision "
+                                     "preference vector truncates the weights (w = [4, 3] instead of [4.67, 3.58]) before they are converted to the matrix dtype", e["loc"])
+                for e in ev:
                     if e["kind"] == "inplace" and e.get("alias"):
                         ctx.violated("R3", f"{name}: {e['function'].split('.')[-1]}: {e['text']}",
                                      f"`{e['text']}` writes in place into a value that may be (a view of) the configured preference vector or the input: a later call would project another vector", e["loc"])
